@@ -29,7 +29,7 @@ def gen_script(rng):
     k = rng.choice([0, 1, 1, 2, 3, 4])
     key = rng.choice(g.keys)
     if kind == 'W':
-        ln = rng.choice([5, 40, 5000]) if rt == 'ct' else rng.choice([5, 100000])
+        ln = rng.choice([5, 40, 5000, 1500000]) if rt == 'ct' else rng.choice([5, 100000, 1500000])   # 1.5 MB: longer than any single blocking call the crate might split a write into
         L.append('cancel %d W %s %d - %d 9001' % (k, key, rng.choice([5, 7, 9, 12]), ln))
     elif kind == 'D':
         L.append('cancel %d D %s %d - %d' % (k, key, rng.choice([5, 7, 9, 12]), rng.choice([0, 1])))
